@@ -162,7 +162,9 @@ def discharge(conds, rep, prop, nproc=None):
                     continue
                 ok, msg = replay_call(c.module, call, c.part, r["bound"])
                 r["replayed"] = ok
-                if ok:
+                if ok and "HARNESS-LIMIT" in msg:
+                    rep.inconclusive.append("%s: %s" % (r["label"], msg[:300]))
+                elif ok:
                     rep.violation({"harness": c.func, "call": call, "part": c.part}, msg,
                                   {"harness": "crosshair", "module": c.module, "call": call, "part": c.part, "bound": r["bound"]})
                 else:
